@@ -92,6 +92,33 @@ func runSeq(W, H int, ops []mop) {
 	emit(L(Sym("seq"), W, H, opsx, bufs))
 }
 
+// runSeqFrom: canvas created with CreateFromBytes over a caller buffer of exactly ceil(W/8)*H bytes
+// (padding bits may be set): emits (seqb W H #init (ops) (bufs)).
+func runSeqFrom(W, H int, init []byte, ops []mop) {
+	img := &mono.MonoImg{}
+	buf := append([]byte{}, init...)
+	if err := img.CreateFromBytes(W, H, buf); err != nil {
+		return
+	}
+	var opsx, bufs []Sx
+	for _, o := range ops {
+		opsx = append(opsx, Sx(o.sx))
+		c16stats[string(o.sx[0].(Sym))]++
+		func() {
+			defer func() {
+				if r := recover(); r != nil {
+					bufs = append(bufs, Sx(Sym("panic")))
+				}
+			}()
+			o.apply(img)
+			cp := append([]byte{}, img.GetImgSlice()...)
+			bufs = append(bufs, Sx(cp))
+		}()
+	}
+	c16stats["from-bytes"]++
+	emit(L(Sym("seqb"), W, H, init, opsx, bufs))
+}
+
 func chunked(W, H int, pre []mop, ops []mop, n int) {
 	for len(ops) > 0 {
 		k := n
@@ -264,6 +291,41 @@ func genC16(tier string, rng *Rng) {
 		}
 		runSeq(W, H, ops)
 	}
+	// 7. canvases created from a caller's buffer (CreateFromBytes): padding bits set, every op kind,
+	//    full-canvas and partial fills / clears in particular
+	nf := 600
+	if thorough {
+		nf = 6000
+	}
+	for n := 0; n < nf; n++ {
+		W, H := rng.Range(0, 40), rng.Range(0, 12)
+		if n%3 == 0 {
+			W = rng.Pick([]int{1, 3, 7, 9, 12, 15, 17, 20, 33})
+		}
+		init := rng.Bytes((W + 7) / 8 * H)
+		if n%4 == 0 {
+			for i := range init {
+				init[i] = 0xFF
+			}
+		}
+		var ops []mop
+		if rng.Intn(3) == 0 {
+			ops = append(ops, opBBox(rng.Range(-3, 3), rng.Range(-2, 2), rng.Range(W-2, W+40), rng.Range(H-2, H+40)))
+		}
+		if rng.Bool() {
+			ops = append(ops, opInv(rng.Bool()))
+		}
+		// full-canvas and oversize fills with both colours, then arbitrary ops
+		ops = append(ops, opFR(0, 0, W, H, rng.Bool()), opFR(-2, -2, W+4, H+4, rng.Bool()), opFR(0, 0, W, H, false), opFR(0, 0, W, H, true),
+			opHL(0, rng.Range(0, H), W, rng.Bool()), opHL(-1, rng.Range(0, H), W+9, rng.Bool()), opFRR(0, 0, W, H, rng.Range(0, 3), rng.Bool()))
+		for k := rng.Range(0, 8); k > 0; k-- {
+			ops = append(ops, randOp(rng, W, H))
+		}
+		// shuffle lightly: start position random
+		st := rng.Intn(len(ops))
+		ops = append(ops[st:], ops[:st]...)
+		runSeqFrom(W, H, init, ops)
+	}
 	meta(map[string]interface{}{"property": "C16", "op_histogram": c16stats})
 }
 
@@ -400,6 +462,14 @@ func decodeOp(n *Node) mop {
 
 func replayC16(line string) {
 	n := parseSexp(line)
+	if n != nil && n.IsList && len(n.Kids) >= 5 && n.Kids[0].Atom == "seqb" {
+		var ops []mop
+		for _, o := range n.Kids[4].Kids {
+			ops = append(ops, decodeOp(o))
+		}
+		runSeqFrom(n.Kids[1].Int(), n.Kids[2].Int(), n.Kids[3].Bytes(), ops)
+		return
+	}
 	if n == nil || !n.IsList || len(n.Kids) < 4 || n.Kids[0].Atom != "seq" {
 		return
 	}
